@@ -41,6 +41,9 @@ class View:
         e = self.e
         srt = e.key_sort(key)
         a = e.harr(self.st, key, z3.ArraySort(I, srt))
+        if getattr(e.specs, 'plain_views', False):
+            # specifications with many quantified clauses: leave read-over-write to the solvers (no in-process alias queries per instance)
+            return z3.Select(a, self._ref(obj))
         return e.read_array(self.st, a, self._ref(obj))
 
     def v3(self, obj, key):
